@@ -4130,7 +4130,16 @@ give_to_app:
       goto expire_lg_crcv;
     }
     if (!block.m && !lg_crcv->observe_set) {
+      goto cache_lg_crcv;
 fail_resp:
+      /*
+       * The body cannot be completed.  When libcoap is re-assembling the
+       * body the application must not take this block for the body.
+       */
+      if ((session->block_mode & COAP_BLOCK_SINGLE_BODY) &&
+          COAP_RESPONSE_CLASS(rcvd->code) == 2)
+        rcvd->code = COAP_RESPONSE_CODE(408);
+cache_lg_crcv:
       /* lg_crcv no longer required - cache it for 1 sec */
       coap_ticks(&lg_crcv->last_used);
       lg_crcv->last_used = lg_crcv->last_used - COAP_MAX_TRANSMIT_WAIT_TICKS(session) +
